@@ -317,4 +317,99 @@ theorem online_zero_of_settled {s : St} (hc : AllC CInv s) (hs : ∀ c ∈ s.con
   simp [this]
 
 
+/-! ### own steps of the conns after the sweep (for the fair-schedule theorem) -/
+
+theorem run_append (g : Cfg) (a b : List Act) : ∀ s, run g s (a ++ b) = run g (run g s a) b := by
+  induction a with
+  | nil => intro s; rfl
+  | cons x xs ih =>
+    intro s
+    simp only [List.cons_append, run]
+    split
+    · exact ih _
+    · exact ih _
+
+/-- a conn whose socket is closed stays closed, loses no close job, and cannot be transferred -/
+theorem cstep_closed_pres (g : Cfg) (e : Env) {c c' : C} {a : CAct} (hcl : c.closed = true) (hj : c.job ≠ .dropped)
+    (hs : cstep g e c a = some c') : c'.closed = true ∧ c'.job ≠ .dropped ∧ a ≠ .transfer := by
+  have hcc : closeC e c = c := by unfold closeC; simp [hcl]
+  have hd : (delKey c).closed = c.closed ∧ (delKey c).job = c.job := by unfold delKey; split <;> simp
+  cases a <;> simp only [cstep] at hs
+  case insert => split at hs <;> (try split at hs) <;> cases hs <;> simp_all
+  case userOpen => split at hs <;> cases hs <;> simp_all
+  case coreOpen => split at hs <;> (try split at hs) <;> cases hs <;> simp_all
+  case coreReg ok =>
+    split at hs
+    · split at hs <;> cases hs
+      · simp_all
+      · rw [hcc]; simp_all
+    · cases hs
+  case delFail => split at hs <;> cases hs; simp [hd.1, hd.2, hcl, hj]
+  case spawn => split at hs <;> cases hs <;> simp_all
+  case transfer =>
+    split at hs
+    · rename_i h; simp [hcl] at h
+    · cases hs
+  case readerExit => split at hs <;> cases hs; simp [hd.2, hj]
+  case close => split at hs <;> cases hs; simp_all
+  case runJob => split at hs <;> cases hs; simp [hd.1, hcl]
+
+
+/-- "swept": every conn's socket is closed and no close job has been dropped -/
+def Swept (s : St) : Prop := ∀ c ∈ s.conns, c.closed = true ∧ c.job ≠ .dropped
+
+/-- an own step of a conn in a swept state: only that conn changes, it stays swept, Stop's variables are untouched -/
+theorem conn_step_swept {g : Cfg} {s s' : St} {i : Nat} {a : CAct} (hsw : Swept s) (hs : step g s (.conn i a) = some s') :
+    Swept s' ∧ s'.sp = s.sp ∧ s'.ret = s.ret ∧ s'.sweeps = s.sweeps := by
+  simp only [step] at hs
+  split at hs
+  · rename_i c hc
+    split at hs
+    · rename_i c' hc'
+      have hm : c ∈ s.conns := List.mem_of_getElem? hc
+      have hp := cstep_closed_pres g _ (hsw c hm).1 (hsw c hm).2 hc'
+      have hnt : (a = CAct.transfer) = False := by simp [hp.2.2]
+      simp only [hnt, if_false] at hs
+      cases hs
+      refine ⟨?_, rfl, rfl, rfl⟩
+      intro x hx
+      rcases List.mem_or_eq_of_mem_set hx with hx | rfl
+      · exact hsw x hx
+      · exact ⟨hp.1, hp.2.1⟩
+    · cases hs
+  · cases hs
+
+theorem conn_run_swept {g : Cfg} (as : List Act) (hall : ∀ x ∈ as, ∃ i a, x = Act.conn i a) :
+    ∀ s, Swept s → Swept (run g s as) ∧ (run g s as).sp = s.sp ∧ (run g s as).ret = s.ret ∧ (run g s as).sweeps = s.sweeps := by
+  induction as with
+  | nil => intro s h; exact ⟨h, rfl, rfl, rfl⟩
+  | cons x xs ih =>
+    intro s h
+    obtain ⟨i, a, rfl⟩ := hall _ (List.mem_cons_self ..)
+    have hall' : ∀ x ∈ xs, ∃ i a, x = Act.conn i a := fun x hx => hall x (List.mem_cons_of_mem _ hx)
+    simp only [run]
+    split
+    · rename_i s' hs
+      obtain ⟨h1, h2, h3, h4⟩ := conn_step_swept h hs
+      obtain ⟨k1, k2, k3, k4⟩ := ih hall' s' h1
+      exact ⟨k1, k2.trans h2, k3.trans h3, k4.trans h4⟩
+    · exact ih hall' s h
+
+/-- in a swept state in which no conn has an own step left, every conn is settled -/
+theorem quiescent_settled {g : Cfg} {s : St} (hci : AllC CInv s) (hsw : Swept s)
+    (hq : ∀ i a, a ≠ CAct.close → step g s (.conn i a) = none) : ∀ c ∈ s.conns, settled c = true := by
+  intro c hc
+  cases hs : settled c with
+  | true => rfl
+  | false =>
+    exfalso
+    obtain ⟨a, hne, hen⟩ := unsettled_can_step g (env g s) (hci c hc) hs (hsw c hc).2 (Or.inl (hsw c hc).1)
+    obtain ⟨i, hi, hget⟩ := List.mem_iff_getElem.mp hc
+    have hget' : s.conns[i]? = some c := by rw [List.getElem?_eq_getElem hi, hget]
+    have := hq i a hne
+    simp only [step, hget'] at this
+    cases hcs : cstep g (env g s) c a with
+    | none => simp [hcs] at hen
+    | some c' => simp [hcs] at this; split at this <;> cases this
+
 end HttpStop
